@@ -51,8 +51,12 @@ type phaseOut struct {
 	env      *phaseEnv
 }
 
-func newEnv(tag string) *phaseEnv {
-	return &phaseEnv{tag: tag, pool: byteslicepool.NewByteSlicePool(16), sharedName: "c08." + tag + ".shared"}
+func newEnv(tag string, c cast) *phaseEnv {
+	e := &phaseEnv{tag: tag, pool: byteslicepool.NewByteSlicePool(16), sharedName: "c08." + tag + ".shared"}
+	if c.count(kAead) > 0 {
+		e.makeAeads(c.AeadKey)
+	}
+	return e
 }
 
 func runRep(w worker, r int) (res string) {
@@ -79,7 +83,7 @@ func runBegin(w worker) (res string) {
 func runSolo(c cast, tag string, mats []material) phaseOut {
 	out := phaseOut{results: make([][]string, len(c.Workers))}
 	for i, ws := range c.Workers {
-		env := newEnv(fmt.Sprintf("%s.solo%d", tag, i))
+		env := newEnv(fmt.Sprintf("%s.solo%d", tag, i), c)
 		w := newWorker(ws, i, env, &mats[i])
 		if msg := runBegin(w); msg != "" {
 			out.failures = append(out.failures, fmt.Sprintf("worker %d (%s) alone: %s", i, ws, msg))
@@ -103,7 +107,7 @@ func runSolo(c cast, tag string, mats []material) phaseOut {
 // runConcurrent runs all workers at once behind a start barrier and compares
 // every result with the solo result.
 func runConcurrent(c cast, tag string, solo [][]string, mats []material) phaseOut {
-	env := newEnv(tag + ".conc")
+	env := newEnv(tag+".conc", c)
 	out := phaseOut{env: env}
 	workers := make([]worker, len(c.Workers))
 	for i, ws := range c.Workers {
@@ -159,6 +163,7 @@ func runConcurrent(c cast, tag string, solo [][]string, mats []material) phaseOu
 
 type castStats struct {
 	maxEnc, maxPool, maxAny int
+	maxAead                 int // EXTRA class: most workers inside a repetition on the same shared AEAD object at the same time
 	unwrapOverlap           int64
 	rounds                  int
 }
@@ -188,6 +193,9 @@ func runCast(c cast, rounds int, announce bool) (string, castStats) {
 			st.maxEnc = max(st.maxEnc, int(out.env.maxActive[actEnc].Load()))
 			st.maxPool = max(st.maxPool, int(out.env.maxActive[actPool].Load()))
 			st.maxAny = max(st.maxAny, int(out.env.maxActive[actAny].Load()))
+			for v := 0; v < 4; v++ {
+				st.maxAead = max(st.maxAead, int(out.env.maxActive[actAead0+v].Load()))
+			}
 			st.unwrapOverlap += out.env.unwrapWhileOthers.Load()
 			if len(out.failures) > 0 {
 				n := len(out.failures)
@@ -211,8 +219,14 @@ func procsOfTier() []int {
 }
 
 func recordCase(sec *vk.Section, c cast, st castStats) {
-	nontrivial := st.maxEnc >= 2 || st.maxPool >= 2
+	nontrivial := st.maxEnc >= 2 || st.maxPool >= 2 || st.maxAead >= 2
 	classes := []string{fmt.Sprintf("gomaxprocs.%d", c.Procs)}
+	if st.maxAead >= 2 {
+		classes = append(classes, "EXTRA(object-level).overlap.same-shared-aead>=2")
+	}
+	if st.maxAead >= 4 {
+		classes = append(classes, "EXTRA(object-level).overlap.same-shared-aead>=4")
+	}
 	if st.maxEnc >= 2 {
 		classes = append(classes, "overlap.enc>=2")
 	}
@@ -234,6 +248,33 @@ func recordCase(sec *vk.Section, c cast, st castStats) {
 		if w.Kind == kEnc && w.Tamper != "none" {
 			k = "cast-has.enc.tamper." + w.Tamper
 		}
+		if w.Kind == kAead {
+			k = "EXTRA(object-level).cast-has.aead-on-shared-object"
+		}
+		if w.Kind == kPool {
+			var ks []string
+			ks = append(ks, "cast-has.pool.style."+w.Style)
+			if w.Style == "keep" {
+				if w.Grows > 0 {
+					ks = append(ks, "cast-has.pool.keep.original-read-after-growing-Resize")
+					if w.PutOrig {
+						ks = append(ks, "cast-has.pool.keep.original-put-back-after-growing-Resize")
+					}
+				}
+				if w.Grows > 1 {
+					ks = append(ks, "cast-has.pool.keep.chain-of-growing-Resize")
+				}
+				if w.Second > 0 {
+					ks = append(ks, "cast-has.pool.keep.two-slices-held-at-once")
+				}
+			}
+			for _, x := range ks {
+				if !seen[x] {
+					seen[x] = true
+					classes = append(classes, x)
+				}
+			}
+		}
 		if w.Kind == kEnc && w.Len >= 65535 && !seen["cast-has.enc.multi-segment"] {
 			seen["cast-has.enc.multi-segment"] = true
 			classes = append(classes, "cast-has.enc.multi-segment")
@@ -247,7 +288,7 @@ func recordCase(sec *vk.Section, c cast, st castStats) {
 	sec.ClassN("workers", int64(len(c.Workers)))
 	sec.ClassN("concurrent-rounds", int64(st.rounds))
 	sec.Sample(func() any {
-		return fmt.Sprintf("%s -> max simultaneously active: enc=%d pool=%d any=%d", c.encode(), st.maxEnc, st.maxPool, st.maxAny)
+		return fmt.Sprintf("%s -> max simultaneously active: enc=%d pool=%d any=%d same-shared-aead=%d", c.encode(), st.maxEnc, st.maxPool, st.maxAny, st.maxAead)
 	})
 }
 
